@@ -1,7 +1,466 @@
-//! C13: not built yet.
-use anyhow::{bail, Result};
-use serde_json::Value;
+//! C13: dukebox::merge::merge (client jar + server jar -> merged jar).
+//!
+//! Abstract jar   {name: entry}   ([] = empty jar); the kind of an entry follows from its name (trailing "/" = dir,
+//!                ".class" = class), the record repeats it:
+//!     {"kind":"dir"} | {"kind":"other","c":content} | {"kind":"class","tag":t,"itf":[name..],"fields":[M..],"methods":[M..]}
+//!     M = {"k":"name:desc","v":variant}   variant selects access / code of the member (table below), tag the SourceFile
+//! ops
+//!   {"op":"jars","client":jar,"server":jar,"corder":[name..]?,"sorder":[name..]?}
+//!       -> {"ok":true,"extra":[name..],"dups":[name..],
+//!           "entries":{name of either input: {"in":b,"eqc":b,"eqs":b}},
+//!           "classes":{class name in the result: {"mark":X,"itf":L,"fields":L,"methods":L,"xitf":[name..]} | {"bad":msg}}}
+//!          L = {"k":[key..],"m":[mark..]} in file order; mark = "client"|"server"|"none"|"?" ("?": the annotation
+//!          is there but not of the shape merge.rs documents - never guessed)
+//!       |  {"ok":false,"stage":"merge"|"write","err":msg}
+//!   {"op":"lists","level":"interfaces"|"fields"|"methods","a":[key..],"b":[key..],"same":b}
+//!       one class K.class on both sides whose list at `level` is a / b (other levels empty); same = byte-identical
+//!       class files (else the SourceFile differs, so that the member merge runs even for a = b)
+//!       -> {"ok":true,"r":L,"mark":X,"xitf":[..],"eqc":b,"eqs":b} | {"ok":true,"bad":msg} | {"ok":false,..}
+//! The inputs are assembled by cfkit (independent of duke), zipped with `zip`; the result is taken from
+//! ParsedJar::to_mem(), its central directory is walked here, the classes are parsed by cfkit.
+use std::collections::{BTreeMap, BTreeSet};
+use std::io::{Cursor, Read, Write};
+use anyhow::{anyhow, bail, Context, Result};
+use rand::rngs::StdRng;
+use rand::seq::SliceRandom;
+use rand::{Rng, SeedableRng};
+use serde_json::{json, Map, Value};
+use dukebox::storage::UnnamedMemJar;
 
-pub fn exec(_v: &Value) -> Result<Value> { bail!("C13: driver not built") }
+const ENVIRONMENT: &str = "Lnet/fabricmc/api/Environment;";
+const ENV_TYPE: &str = "Lnet/fabricmc/api/EnvType;";
+const ENV_ITF: &str = "Lnet/fabricmc/api/EnvironmentInterface;";
+const ENV_ITFS: &str = "Lnet/fabricmc/api/EnvironmentInterfaces;";
 
-pub fn gen(_seed: u64, _n: usize) -> Result<Vec<Value>> { bail!("C13: driver not built") }
+// ---------------------------------------------------------------------------------------------
+// abstract class -> class facts -> bytes
+
+fn split_key(k: &str) -> Result<(&str, &str)> {
+	k.split_once(':').with_context(|| format!("member key {k:?} is not name:desc"))
+}
+
+fn field_facts(m: &Value) -> Result<Value> {
+	let (name, desc) = split_key(m["k"].as_str().context("k")?)?;
+	let access = [0x0002, 0x0001, 0x0004, 0x0000][(m["v"].as_u64().unwrap_or(0) % 4) as usize];
+	Ok(json!({"access": access, "name": name, "desc": desc, "attrs": {}}))
+}
+
+fn method_facts(m: &Value) -> Result<Value> {
+	let (name, desc) = split_key(m["k"].as_str().context("k")?)?;
+	if !desc.ends_with(")V") { bail!("C13 driver builds void methods only, got {desc}"); }
+	let v = m["v"].as_u64().unwrap_or(0) % 4;
+	let access = [0x0001, 0x0001, 0x0004, 0x0001][v as usize];
+	let insns = match v {
+		1 => json!([{"op": "nop"}, {"op": "return"}]),
+		3 => json!([{"op": "iconst_0"}, {"op": "pop"}, {"op": "return"}]),
+		_ => json!([{"op": "return"}]),
+	};
+	let slots = 1 + arg_slots(desc);
+	Ok(json!({"access": access, "name": name, "desc": desc, "attrs": {"Code": {
+		"max_stack": 1, "max_locals": slots, "insns": insns, "exceptions": [], "attrs": {}}}}))
+}
+
+fn arg_slots(desc: &str) -> u64 {
+	let mut n = 0;
+	let b = desc.as_bytes();
+	let mut i = 1;
+	while i < b.len() && b[i] != b')' {
+		let mut arr = false;
+		while b[i] == b'[' { arr = true; i += 1; }
+		match b[i] {
+			b'L' => { while b[i] != b';' { i += 1; } n += 1; },
+			b'J' | b'D' => n += if arr { 1 } else { 2 },
+			_ => n += 1,
+		}
+		i += 1;
+	}
+	n
+}
+
+fn class_bytes(entry_name: &str, c: &Value) -> Result<Vec<u8>> {
+	let this = entry_name.strip_suffix(".class").context("class entry name")?;
+	let mut attrs = Map::new();
+	let tag = c["tag"].as_str().unwrap_or("");
+	if !tag.is_empty() { attrs.insert("SourceFile".into(), json!(tag)); }
+	let fields: Vec<Value> = arr(&c["fields"]).iter().map(field_facts).collect::<Result<_>>()?;
+	let methods: Vec<Value> = arr(&c["methods"]).iter().map(method_facts).collect::<Result<_>>()?;
+	let facts = json!({"version": [52, 0], "access": 0x21, "this": this, "super": "java/lang/Object",
+		"interfaces": arr(&c["itf"]), "fields": fields, "methods": methods, "attrs": attrs});
+	cfkit::asm::assemble(&facts, &cfkit::asm::Encoding::default()).map_err(|e| anyhow!("assemble {entry_name}: {e:?}"))
+}
+
+fn arr(v: &Value) -> &[Value] { v.as_array().map(|a| a.as_slice()).unwrap_or(&[]) }
+
+// ---------------------------------------------------------------------------------------------
+// abstract jar -> (bytes per name, zip)
+
+fn entry_bytes(name: &str, e: &Value) -> Result<Vec<u8>> {
+	Ok(match e["kind"].as_str().context("kind")? {
+		"dir" => vec![],
+		"other" => e["c"].as_str().context("c")?.as_bytes().to_vec(),
+		"class" => class_bytes(name, e)?,
+		k => bail!("unknown entry kind {k}"),
+	})
+}
+
+fn jar_contents(jar: &Value, order: &Value) -> Result<Vec<(String, bool, Vec<u8>)>> {
+	let empty = Map::new();
+	let m = jar.as_object().unwrap_or(&empty);
+	let mut names: Vec<String> = arr(order).iter().filter_map(|n| n.as_str()).filter(|n| m.contains_key(*n)).map(|n| n.to_owned()).collect();
+	for n in m.keys() { if !names.contains(n) { names.push(n.clone()); } }
+	let mut out = vec![];
+	for n in names {
+		let e = &m[&n];
+		let is_dir = e["kind"] == "dir";
+		if is_dir != n.ends_with('/') || (e["kind"] == "class") != (!is_dir && n.ends_with(".class")) {
+			bail!("entry {n:?} of kind {} contradicts its name", e["kind"]);
+		}
+		out.push((n.clone(), is_dir, entry_bytes(&n, e)?));
+	}
+	Ok(out)
+}
+
+fn zip_bytes(contents: &[(String, bool, Vec<u8>)]) -> Result<Vec<u8>> {
+	let mut w = zip::ZipWriter::new(Cursor::new(Vec::new()));
+	let opt = zip::write::SimpleFileOptions::default()
+		.compression_method(zip::CompressionMethod::Stored)
+		.last_modified_time(zip::DateTime::default());
+	for (name, is_dir, data) in contents {
+		if *is_dir { w.add_directory(name.as_str(), opt)?; } else { w.start_file(name.as_str(), opt)?; w.write_all(data)?; }
+	}
+	Ok(w.finish()?.into_inner())
+}
+
+/// names of the central directory in order, duplicates included (APPNOTE 4.3.12 / 4.3.16)
+fn central_directory_names(z: &[u8]) -> Result<Vec<String>> {
+	let u16at = |p: usize| -> usize { u16::from_le_bytes([z[p], z[p + 1]]) as usize };
+	let u32at = |p: usize| -> usize { u32::from_le_bytes([z[p], z[p + 1], z[p + 2], z[p + 3]]) as usize };
+	if z.len() < 22 { bail!("zip too short"); }
+	let mut p = z.len() - 22;
+	while !(z[p..p + 4] == [0x50, 0x4b, 0x05, 0x06]) {
+		if p == 0 { bail!("no end of central directory record"); }
+		p -= 1;
+	}
+	let total = u16at(p + 10);
+	let mut q = u32at(p + 16);
+	if total == 0xffff || q == 0xffff_ffff { bail!("zip64 result not expected here"); }
+	let mut names = vec![];
+	for _ in 0..total {
+		if q + 46 > z.len() || z[q..q + 4] != [0x50, 0x4b, 0x01, 0x02] { bail!("bad central directory header at {q}"); }
+		let (n, m, k) = (u16at(q + 28), u16at(q + 30), u16at(q + 32));
+		names.push(String::from_utf8_lossy(&z[q + 46..q + 46 + n]).into_owned());
+		q += 46 + n + m + k;
+	}
+	Ok(names)
+}
+
+// ---------------------------------------------------------------------------------------------
+// projection of a result class (cfkit facts) to marks
+
+fn annotations<'a>(attrs: &'a Value) -> Vec<&'a Value> {
+	let mut v = vec![];
+	for key in ["RuntimeVisibleAnnotations", "RuntimeInvisibleAnnotations"] {
+		v.extend(arr(&attrs[key]).iter());
+		v.extend(arr(&attrs["dup"][key]).iter().flat_map(|l| arr(l).iter()));
+	}
+	v
+}
+
+/// {"e": {"type": EnvType, "name": CLIENT|SERVER}} -> side
+fn side_of(ev: &Value) -> Option<&'static str> {
+	let e = ev.get("e")?;
+	if ev.as_object()?.len() != 1 || e["type"] != ENV_TYPE { return None; }
+	match e["name"].as_str()? { "CLIENT" => Some("client"), "SERVER" => Some("server"), _ => None }
+}
+
+/// @Environment(value = EnvType.X) on a class / field / method
+fn env_mark(attrs: &Value) -> &'static str {
+	let found: Vec<&Value> = annotations(attrs).into_iter().filter(|a| a["type"] == ENVIRONMENT).collect();
+	match found.as_slice() {
+		[] => "none",
+		[a] => {
+			let pairs = arr(&a["pairs"]);
+			if pairs.len() == 1 && pairs[0][0] == "value" { side_of(&pairs[0][1]).unwrap_or("?") } else { "?" }
+		},
+		_ => "?",
+	}
+}
+
+/// @EnvironmentInterface(value = EnvType.X, itf = I.class) -> (I, side); None = not of that shape
+fn itf_instance(a: &Value) -> Option<(String, &'static str)> {
+	if a["type"] != ENV_ITF { return None; }
+	let pairs = arr(&a["pairs"]);
+	if pairs.len() != 2 { return None; }
+	let value = pairs.iter().find(|p| p[0] == "value")?;
+	let itf = pairs.iter().find(|p| p[0] == "itf")?;
+	let side = side_of(&value[1])?;
+	let c = itf[1].get("c")?.as_str()?;
+	if itf[1].as_object()?.len() != 1 { return None; }
+	let name = c.strip_prefix('L')?.strip_suffix(';')?;
+	Some((name.to_owned(), side))
+}
+
+/// every @EnvironmentInterface of the class: directly, or inside @EnvironmentInterfaces(value = {..})
+fn itf_instances(attrs: &Value) -> Vec<Option<(String, &'static str)>> {
+	let mut out = vec![];
+	for a in annotations(attrs) {
+		if a["type"] == ENV_ITF {
+			out.push(itf_instance(a));
+		} else if a["type"] == ENV_ITFS {
+			let pairs = arr(&a["pairs"]);
+			let elems = if pairs.len() == 1 && pairs[0][0] == "value" { pairs[0][1].get("[").and_then(|x| x.as_array()) } else { None };
+			match elems {
+				None => out.push(None),
+				Some(es) => for e in es { out.push(e.get("@").and_then(itf_instance)); },
+			}
+		}
+	}
+	out
+}
+
+fn marked(keys: Vec<String>, marks: Vec<String>) -> Value { json!({"k": keys, "m": marks}) }
+
+fn project_class(bytes: &[u8]) -> Value {
+	let facts = match cfkit::parse::parse_class_facts_only(bytes) {
+		Ok(p) => p.facts,
+		Err(e) => return json!({"bad": e.to_string()}),
+	};
+	let member = |list: &Value| -> Value {
+		let ms = arr(list);
+		marked(ms.iter().map(|m| format!("{}:{}", sdisp(&m["name"]), sdisp(&m["desc"]))).collect(),
+			ms.iter().map(|m| env_mark(&m["attrs"]).to_owned()).collect())
+	};
+	let inst = itf_instances(&facts["attrs"]);
+	let itfs: Vec<String> = arr(&facts["interfaces"]).iter().map(sdisp).collect();
+	let imarks: Vec<String> = itfs.iter().map(|i| {
+		let hits: Vec<&'static str> = inst.iter().flatten().filter(|(n, _)| n == i).map(|(_, s)| *s).collect();
+		match hits.as_slice() { [] => "none".to_owned(), [s] => (*s).to_owned(), _ => "?".to_owned() }
+	}).collect();
+	let mut xitf: Vec<String> = vec![];
+	for i in &inst {
+		match i {
+			None => xitf.push("?".into()),
+			Some((n, _)) if !itfs.contains(n) => xitf.push(n.clone()),
+			_ => {},
+		}
+	}
+	json!({"mark": env_mark(&facts["attrs"]), "itf": marked(itfs, imarks), "fields": member(&facts["fields"]),
+		"methods": member(&facts["methods"]), "xitf": xitf})
+}
+
+fn sdisp(v: &Value) -> String { v.as_str().map(|s| s.to_owned()).unwrap_or_else(|| v.to_string()) }
+
+// ---------------------------------------------------------------------------------------------
+
+fn run_merge(v: &Value) -> Result<Value> {
+	let c = jar_contents(&v["client"], &v["corder"])?;
+	let s = jar_contents(&v["server"], &v["sorder"])?;
+	let (cz, sz) = (zip_bytes(&c)?, zip_bytes(&s)?);
+	let merged = match dukebox::merge::merge(UnnamedMemJar { data: cz }, UnnamedMemJar { data: sz }) {
+		Ok(m) => m,
+		Err(e) => return Ok(json!({"ok": false, "stage": "merge", "err": format!("{e:#}")})),
+	};
+	let out = match merged.to_mem() {
+		Ok(m) => m.data,
+		Err(e) => return Ok(json!({"ok": false, "stage": "write", "err": format!("{e:#}")})),
+	};
+	let names = central_directory_names(&out)?;
+	let mut zr = zip::ZipArchive::new(Cursor::new(&out)).context("result is not a zip")?;
+	let mut got: BTreeMap<String, Vec<u8>> = BTreeMap::new();
+	for i in 0..zr.len() {
+		let mut f = zr.by_index(i)?;
+		let mut data = vec![];
+		f.read_to_end(&mut data)?;
+		got.insert(f.name().to_owned(), data);
+	}
+	let cm: BTreeMap<&str, &Vec<u8>> = c.iter().map(|(n, _, d)| (n.as_str(), d)).collect();
+	let sm: BTreeMap<&str, &Vec<u8>> = s.iter().map(|(n, _, d)| (n.as_str(), d)).collect();
+	let inputs: BTreeSet<&str> = cm.keys().chain(sm.keys()).copied().collect();
+	let mut seen = BTreeSet::new();
+	let mut dups = BTreeSet::new();
+	for n in &names { if !seen.insert(n.as_str()) { dups.insert(n.clone()); } }
+	let extra: Vec<&str> = seen.iter().copied().filter(|n| !inputs.contains(n)).collect();
+	let mut entries = Map::new();
+	for n in &inputs {
+		let g = got.get(*n);
+		entries.insert((*n).to_owned(), json!({
+			"in": seen.contains(n),
+			"eqc": g.is_some() && cm.get(n).is_some_and(|d| Some(*d) == g),
+			"eqs": g.is_some() && sm.get(n).is_some_and(|d| Some(*d) == g),
+		}));
+	}
+	let mut classes = Map::new();
+	for (n, d) in &got {
+		if n.ends_with(".class") { classes.insert(n.clone(), project_class(d)); }
+	}
+	Ok(json!({"ok": true, "extra": extra, "dups": dups, "entries": entries, "classes": classes}))
+}
+
+const K: &str = "K.class";
+
+pub fn exec(v: &Value) -> Result<Value> {
+	match v["op"].as_str().context("op")? {
+		"jars" => run_merge(v),
+		"lists" => {
+			let level = v["level"].as_str().context("level")?;
+			let same = v["same"].as_bool().unwrap_or(false);
+			let mk = |keys: &Value, tag: &str| -> Value {
+				let ms: Vec<Value> = arr(keys).iter().map(|k| json!({"k": k, "v": 0})).collect();
+				json!({K: {"kind": "class", "tag": tag,
+					"itf": if level == "interfaces" { keys.clone() } else { json!([]) },
+					"fields": if level == "fields" { json!(ms) } else { json!([]) },
+					"methods": if level == "methods" { json!(ms) } else { json!([]) }}})
+			};
+			if !matches!(level, "interfaces" | "fields" | "methods") { bail!("level {level}"); }
+			if same && v["a"] != v["b"] { bail!("same = true needs a = b"); }
+			let g = run_merge(&json!({"client": mk(&v["a"], "K.java"), "server": mk(&v["b"], if same { "K.java" } else { "K2.java" })}))?;
+			if g["ok"] != true { return Ok(g); }
+			let cls = &g["classes"][K];
+			if cls.is_null() { return Ok(json!({"ok": true, "bad": "class K missing from the result"})); }
+			if !cls["bad"].is_null() { return Ok(json!({"ok": true, "bad": cls["bad"]})); }
+			Ok(json!({"ok": true, "r": cls[if level == "interfaces" { "itf" } else { level }], "mark": cls["mark"], "xitf": cls["xitf"],
+				"eqc": g["entries"][K]["eqc"], "eqs": g["entries"][K]["eqs"]}))
+		},
+		op => bail!("C13: unknown op {op}"),
+	}
+}
+
+// ---------------------------------------------------------------------------------------------
+// random inputs (never expectations)
+
+/// two lists over a common pool: tame = every server-only key after the server's common keys
+fn gen_lists(r: &mut StdRng, pool: &[String], tame: bool) -> (Vec<String>, Vec<String>) {
+	let n = pool.len();
+	let mode = r.gen_range(0..10);
+	let mut pool: Vec<String> = pool.to_vec();
+	pool.shuffle(r);
+	let pc = *[0.2, 0.5, 0.8, 1.0].choose(r).unwrap_or(&0.5);
+	let ps = *[0.2, 0.5, 0.8, 1.0].choose(r).unwrap_or(&0.5);
+	let a: Vec<String> = pool.iter().filter(|_| r.gen_bool(pc)).cloned().collect();
+	let mut b: Vec<String> = pool.iter().filter(|_| r.gen_bool(ps)).cloned().collect();
+	match mode {
+		0 => b = a.clone(),                                                   // identical
+		1 if n > 0 => { let cut = r.gen_range(0..=a.len()); b = a[..cut].to_vec(); },       // prefix
+		2 if n > 0 => { let cut = r.gen_range(0..=a.len()); b = a[cut..].to_vec(); },       // suffix
+		3 => b.retain(|x| !a.contains(x)),                                    // disjoint
+		4 => { b = a.clone(); b.shuffle(r); },                                // permutation
+		5 | 6 => b.shuffle(r),                                                // scrambled
+		_ => {},                                                              // interleaving
+	}
+	if tame {
+		let (common, own): (Vec<String>, Vec<String>) = b.iter().cloned().partition(|x| a.contains(x));
+		b = common.into_iter().chain(own).collect();
+	}
+	(a, b)
+}
+
+fn key_pool(r: &mut StdRng, level: &str, n: usize) -> Vec<String> {
+	let mut out: Vec<String> = vec![];
+	while out.len() < n {
+		let i = r.gen_range(0..12);
+		let k = match level {
+			"interfaces" => format!("{}I{}", ["", "p/", "net/minecraft/", "java/lang/"].choose(r).unwrap_or(&""), i),
+			"fields" => format!("f{}:{}", i, ["I", "J", "Ljava/lang/String;", "[I"].choose(r).unwrap_or(&"I")),
+			_ => format!("{}:{}", ["<init>", "m0", "m1", "m2", "run", "\u{e9}t\u{e9}"].choose(r).unwrap_or(&"m"),
+				["()V", "(I)V", "(JLjava/lang/String;)V", "([[D)V"].choose(r).unwrap_or(&"()V")),
+		};
+		if !out.contains(&k) { out.push(k); }
+	}
+	out
+}
+
+fn with_variants(r: &mut StdRng, keys: &[String], other: Option<&[Value]>, p_diff: f64) -> Vec<Value> {
+	keys.iter().map(|k| {
+		let shared = other.and_then(|o| o.iter().find(|m| m["k"] == k.as_str()));
+		let v = match shared {
+			Some(m) if !r.gen_bool(p_diff) => m["v"].as_u64().unwrap_or(0),
+			_ => r.gen_range(0..4),
+		};
+		json!({"k": k, "v": v})
+	}).collect()
+}
+
+fn gen_class_pair(r: &mut StdRng, tame: bool) -> (Value, Value) {
+	let np = [r.gen_range(0..5), r.gen_range(0..7), r.gen_range(0..7)];
+	let pools = [key_pool(r, "interfaces", np[0]), key_pool(r, "fields", np[1]), key_pool(r, "methods", np[2])];
+	let (ia, ib) = gen_lists(r, &pools[0], tame);
+	let (fa, fb) = gen_lists(r, &pools[1], tame);
+	let (ma, mb) = gen_lists(r, &pools[2], tame);
+	let fc = with_variants(r, &fa, None, 0.0);
+	let fs = with_variants(r, &fb, Some(&fc), 0.3);
+	let mc = with_variants(r, &ma, None, 0.0);
+	let ms = with_variants(r, &mb, Some(&mc), 0.3);
+	let tag_c = "A.java";
+	let tag_s = if r.gen_bool(0.3) { "B.java" } else { "A.java" };
+	(json!({"kind": "class", "tag": tag_c, "itf": ia, "fields": fc, "methods": mc}),
+		json!({"kind": "class", "tag": tag_s, "itf": ib, "fields": fs, "methods": ms}))
+}
+
+const RES: &[&str] = &["pack.mcmeta", "log4j2.xml", "assets/minecraft/lang/en_us.json", "assets/\u{fc}n\u{ef}.txt", "data/x.nbt",
+	"com/google/common/base/res.txt", "META-INF/MANIFEST.MF", "META-INF/MOJANGCS.SF", "META-INF/MOJANGCS.RSA", "META-INF/OTHER.DSA",
+	"META-INF/OTHER.EC", "META-INF/services/java.nio.file.spi.FileSystemProvider", "META-INF/sub/nested.SF", "META-INF/notes.txt",
+	"data.SF", "x.RSA", "net/minecraft/server/res.bin"];
+const DIRS: &[&str] = &["net/", "net/minecraft/", "assets/", "com/", "com/google/", "META-INF/", "data/"];
+
+fn gen_jars(r: &mut StdRng) -> Value {
+	let tame = r.gen_bool(0.35);
+	let mut client = Map::new();
+	let mut server = Map::new();
+	let ncls = r.gen_range(0..7);
+	let mode = r.gen_range(0..6);          // 0: disjoint class sets, 1: identical, else overlapping
+	for i in 0..ncls {
+		let pkg = *["net/minecraft/", "net/minecraft/server/", "com/google/common/", "", "net/minecraftx/", "a/"].choose(r).unwrap_or(&"");
+		let name = format!("{pkg}C{i}.class");
+		let (c, s) = gen_class_pair(r, tame);
+		let how = match mode { 0 => r.gen_range(0..2), 1 => 2, _ => r.gen_range(0..5) };
+		match how {
+			0 => { client.insert(name, c); },
+			1 => { server.insert(name, s); },
+			2 => { client.insert(name.clone(), c.clone()); server.insert(name, c); },
+			_ => { client.insert(name.clone(), c); server.insert(name, s); },
+		}
+	}
+	for _ in 0..r.gen_range(0..6) {
+		let name = (*RES.choose(r).unwrap_or(&"x")).to_owned();
+		let c1 = format!("content {} of {name}", r.gen_range(0..3));
+		let c2 = if r.gen_bool(0.5) { c1.clone() } else { format!("other content of {name}") };
+		match r.gen_range(0..4) {
+			0 => { client.insert(name, json!({"kind": "other", "c": c1})); },
+			1 => { server.insert(name, json!({"kind": "other", "c": c1})); },
+			_ => { client.insert(name.clone(), json!({"kind": "other", "c": c1})); server.insert(name, json!({"kind": "other", "c": c2})); },
+		}
+	}
+	for _ in 0..r.gen_range(0..3) {
+		let name = (*DIRS.choose(r).unwrap_or(&"d/")).to_owned();
+		match r.gen_range(0..3) {
+			0 => { client.insert(name, json!({"kind": "dir"})); },
+			1 => { server.insert(name, json!({"kind": "dir"})); },
+			_ => { client.insert(name.clone(), json!({"kind": "dir"})); server.insert(name, json!({"kind": "dir"})); },
+		}
+	}
+	if client.is_empty() && server.is_empty() { client.insert("pack.mcmeta".into(), json!({"kind": "other", "c": "{}"})); }
+	let mut corder: Vec<String> = client.keys().cloned().collect();
+	let mut sorder: Vec<String> = server.keys().cloned().collect();
+	corder.shuffle(r);
+	sorder.shuffle(r);
+	json!({"op": "jars", "client": client, "server": server, "corder": corder, "sorder": sorder})
+}
+
+pub fn gen(seed: u64, n: usize) -> Result<Vec<Value>> {
+	let mut r = StdRng::seed_from_u64(seed ^ 0xC13);
+	let mut out = vec![];
+	while out.len() < n {
+		if r.gen_bool(0.35) {
+			let level = *["interfaces", "fields", "methods"].choose(&mut r).unwrap_or(&"fields");
+			let np = r.gen_range(0..9);
+			let pool = key_pool(&mut r, level, np);
+			let tame = r.gen_bool(0.35);
+			let (a, b) = gen_lists(&mut r, &pool, tame);
+			let same = a == b && r.gen_bool(0.5);
+			out.push(json!({"op": "lists", "level": level, "a": a, "b": b, "same": same}));
+		} else {
+			out.push(gen_jars(&mut r));
+		}
+	}
+	Ok(out)
+}
